@@ -83,16 +83,21 @@ def _param_only_in_part(F):
 
 
 def _signature(case, clauses, out_kind):
+    """Kind of failing input (scalars only, for known-findings matching):
+    Rejection   -> which documented rules the accepted file breaks; for 'mixing' which timing attributes one task combines
+    ValidLoads / Fidelity -> how includes are written, as what the valid file was rejected, whether a supplied parameter is
+                   referenced only inside an included part"""
     names = sorted({c.split(":")[0] for c in clauses})
-    sig = {"clause": ",".join(names), "collect": case["style"]["collect"]}
+    sig = {"clause": ",".join(names)}
     rules = sorted({c.split(":")[1] for c in clauses if c.startswith("Rejection:")})
     if rules:
-        sig["rules"] = rules
+        sig["rules"] = "+".join(rules)
     mix = sorted({c.split(":")[2] for c in clauses if c.startswith("Rejection:mixing:")})
     if mix:
-        sig["mixed"] = mix
-    if "ValidLoads" in names:
-        sig["rejected_as"] = out_kind
+        sig["mixed"] = "+".join(mix)
+    if "ValidLoads" in names or "Fidelity" in names:
+        sig["collect"] = case["style"]["collect"]
+        sig["rejected_as"] = out_kind or "loaded"
         sig["supplied_param_only_in_included_part"] = _param_only_in_part(case["f"])
     return sig
 
@@ -145,7 +150,7 @@ def _minimal(**task_fields):
     el = {"par": False, "cb": "", "tasks": [t]}
     for k in tg.EL_NUM:
         el[k] = dict(tg.NOVAL)
-    return {"form": "schedule", "chals": [{"name": "", "dflt": "abs", "sched": [el]}], "ops": [], "corpora": [], "indices": [], "streams": [], "supN": [], "supS": [], "parts": [], "tight": False, "defect": dict(tg.NODEFECT)}
+    return {"form": "schedule", "chals": [{"name": "", "dflt": "abs", "sched": [el]}], "ops": [], "corpora": [], "indices": [], "streams": [], "supN": [], "supS": [], "parts": [], "refs": [], "tight": False, "defect": dict(tg.NODEFECT)}
 
 
 def probe_loader(root):
